@@ -25,7 +25,7 @@ PURE_STR_METHODS = {'casefold', 'lower', 'upper', 'strip', 'lstrip', 'rstrip', '
 MUTATING_METHODS = {'append', 'extend', 'insert', 'pop', 'remove', 'clear', 'sort', 'reverse', 'edit', 'set_key',
                     'merge_children', 'ensure_exists', '__setitem__', '__delitem__', '__iadd__', 'popitem',
                     'update', 'setdefault'}
-PURE_FUNCS = {'isinstance', 'repr', 'escape_text', 'str', 'len', 'iter', 'type'}
+PURE_FUNCS = {'isinstance', 'repr', 'escape_text', 'str', 'len', 'iter', 'type', 'id'}
 
 
 def _err(node: ast.AST, msg: str) -> TranslateError:
@@ -204,6 +204,150 @@ def _pure_helper(name: str) -> bool:
                for c in ast.walk(hb[0].value) if isinstance(c, ast.Call))
 
 
+# ------------------------------------------------------------------------------------------------ state that outlives a call
+# Round 5: the writers must neither read nor write anything that outlives the call (a module-level or class-level mutable
+# object): otherwise what a call does depends on the calls before it, in particular on calls that were aborted half-way.
+STATE_MUTATORS = {'add', 'discard', 'remove', 'pop', 'clear', 'update', 'append', 'extend', 'insert', 'setdefault', 'popitem',
+                  'sort', 'reverse', 'appendleft', 'popleft', 'difference_update', 'intersection_update',
+                  'symmetric_difference_update', '__setitem__', '__delitem__', 'cache_clear'}
+STATE_MARK = {'add', 'append', 'appendleft'}
+STATE_UNMARK = {'discard', 'remove', 'pop', 'popleft'}
+STATE: dict = {'module': {}, 'cls': {}, 'class_name': None}     # per source module: names of its mutable module-level objects
+
+
+def _mutable_value(v, depth: int = 0) -> bool:
+    """Can the object change (so that holding it at module / class level is state)?  Functions, classes, modules, strings,
+    numbers, None, compiled patterns, enum members, typing constructs, frozensets and tuples of such values cannot."""
+    import enum
+    import re
+    import types
+    import typing
+    if v is None or isinstance(v, (str, bytes, int, float, complex, bool, frozenset, re.Pattern, enum.Enum, type,
+                                   types.FunctionType, types.BuiltinFunctionType, types.ModuleType, types.MethodType,
+                                   staticmethod, classmethod, property, types.MemberDescriptorType,
+                                   types.GetSetDescriptorType, types.WrapperDescriptorType, types.MethodDescriptorType,
+                                   typing.TypeVar)):
+        return False
+    if type(v).__module__ in ('typing', 'typing_extensions', 'types') and not isinstance(v, (list, dict, set)):
+        return False
+    if isinstance(v, tuple):
+        return depth > 3 or any(_mutable_value(x, depth + 1) for x in v)
+    return True
+
+
+def _written_in_functions(tree: ast.Module, name: str) -> list:
+    """Lines inside function bodies of the module where the module-level object `name` is changed or rebound."""
+    out = []
+    for fn in ast.walk(tree):
+        if not isinstance(fn, (ast.FunctionDef, ast.AsyncFunctionDef, ast.Lambda)):
+            continue
+        for n in ast.walk(fn):
+            if isinstance(n, (ast.Global, ast.Nonlocal)) and name in n.names:
+                out.append(n.lineno)
+            elif isinstance(n, ast.Call) and isinstance(n.func, ast.Attribute) and n.func.attr in STATE_MUTATORS \
+                    and _root_name(n.func.value) == name:
+                out.append(n.lineno)
+            elif isinstance(n, (ast.Subscript, ast.Attribute)) and isinstance(n.ctx, (ast.Store, ast.Del)) \
+                    and _root_name(n) == name:
+                out.append(n.lineno)
+    return sorted(set(out))
+
+
+def init_state(modfile: str, tree: ast.Module, cls: ast.ClassDef | None = None) -> None:
+    """The module-level (and, for `cls`, class-level) objects of the module under test that are mutable AND are changed
+    by some function of the module (a table that is only ever read is a constant)."""
+    import importlib
+    try:
+        mod = importlib.import_module('srctools.' + modfile[:-3])
+    except Exception as e:      # noqa: BLE001   fail closed, not INTERNAL-ERROR
+        raise TranslateError(f'{modfile}: the module under test cannot be imported: {e!r}')
+    names = {}
+    for k, v in vars(mod).items():
+        if k.startswith('__') or not _mutable_value(v):
+            continue
+        w = _written_in_functions(tree, k)
+        names[k] = w
+    STATE['module'][modfile] = names
+    if cls is not None:
+        STATE['class_name'] = cls.name
+        cobj = getattr(mod, cls.name)
+        STATE['cls'] = {k: True for k, v in vars(cobj).items() if not k.startswith('__') and _mutable_value(v)}
+
+
+def state_refs(node: ast.AST, modfile: str, self_names: set) -> list:
+    """[(line, 'read' | 'write', name)] for every use inside `node` of something that outlives the call: a module-level
+    mutable object some function changes, a class-level mutable attribute (reached through the class, type(self),
+    self.__class__ or the instance), a `global` declaration."""
+    mnames = STATE['module'].get(modfile, {})
+    out = []
+    local_stores = {n.id for n in ast.walk(node) if isinstance(n, ast.Name) and isinstance(n.ctx, ast.Store)}
+    globals_decl = {g for n in ast.walk(node) if isinstance(n, (ast.Global, ast.Nonlocal)) for g in n.names}
+    for n in ast.walk(node):
+        if isinstance(n, (ast.Global, ast.Nonlocal)):
+            out += [(n.lineno, 'write', g) for g in n.names]
+        elif isinstance(n, ast.Name) and n.id in globals_decl and isinstance(n.ctx, (ast.Store, ast.Del)):
+            out.append((n.lineno, 'write', n.id))
+        elif isinstance(n, ast.Name) and n.id in mnames and (n.id not in local_stores or n.id in globals_decl):
+            if mnames[n.id]:        # changed by some function of the module
+                out.append((n.lineno, 'read', n.id))
+        elif isinstance(n, ast.Attribute):
+            root = n.value
+            via_class = _is_name(root, STATE['class_name'] or '') or (
+                isinstance(root, ast.Attribute) and root.attr == '__class__') or (
+                isinstance(root, ast.Call) and _is_name(root.func, 'type'))
+            if (via_class or (isinstance(root, ast.Name) and root.id in self_names)) and n.attr in STATE['cls']:
+                out.append((n.lineno, 'write' if isinstance(n.ctx, (ast.Store, ast.Del)) else 'read', n.attr))
+            elif via_class and isinstance(n.ctx, (ast.Store, ast.Del)):
+                out.append((n.lineno, 'write', n.attr))
+    # a mutating method call / item store on such an object is a write
+    for n in ast.walk(node):
+        tgt = None
+        if isinstance(n, ast.Call) and isinstance(n.func, ast.Attribute) and n.func.attr in STATE_MUTATORS:
+            tgt = n.func.value
+        elif isinstance(n, (ast.Subscript, ast.Attribute)) and isinstance(n.ctx, (ast.Store, ast.Del)):
+            tgt = n.value
+        if tgt is not None:
+            for nm in state_refs_names(tgt, mnames):
+                out.append((n.lineno, 'write', nm))
+    return sorted(set(out))
+
+
+def state_refs_names(node: ast.AST, mnames: dict) -> list:
+    return [x.id for x in ast.walk(node) if isinstance(x, ast.Name) and x.id in mnames and mnames[x.id]] + \
+           [x.attr for x in ast.walk(node) if isinstance(x, ast.Attribute) and x.attr in STATE['cls']]
+
+
+def state_kind(s: ast.stmt, modfile: str, self_names: set):
+    """A statement of a writer that touches state outliving the call, classified for the history model (KV/KvWHist.v):
+       'guard'   `if <own identity> in <state>: raise ...`            (no else branch)
+       'mark'    `<state>.add(<own identity>)` / append
+       'unmark'  `<state>.discard(<own identity>)` / remove
+       'state'   anything else that mentions such state
+       None      the statement does not touch it."""
+    refs = state_refs(s, modfile, self_names)
+    if not refs:
+        return None
+
+    def own_id(e) -> bool:
+        return (isinstance(e, ast.Call) and _is_name(e.func, 'id') and len(e.args) == 1 and not e.keywords
+                and isinstance(e.args[0], ast.Name) and e.args[0].id in self_names) \
+            or (isinstance(e, ast.Name) and e.id in self_names)
+
+    def is_state_obj(e) -> bool:
+        return isinstance(e, (ast.Name, ast.Attribute)) and bool(state_refs(ast.Expr(value=e, lineno=s.lineno), modfile, self_names))
+    if isinstance(s, ast.If) and not s.orelse and len(s.body) == 1 and isinstance(s.body[0], ast.Raise) \
+            and isinstance(s.test, ast.Compare) and len(s.test.ops) == 1 and isinstance(s.test.ops[0], ast.In) \
+            and own_id(s.test.left) and is_state_obj(s.test.comparators[0]):
+        return 'guard'
+    if isinstance(s, ast.Expr) and isinstance(s.value, ast.Call) and isinstance(s.value.func, ast.Attribute) \
+            and is_state_obj(s.value.func.value) and len(s.value.args) == 1 and not s.value.keywords and own_id(s.value.args[0]):
+        if s.value.func.attr in STATE_MARK:
+            return 'mark'
+        if s.value.func.attr in STATE_UNMARK:
+            return 'unmark'
+    return 'state'
+
+
 def census(fn: ast.FunctionDef, self_name: str) -> tuple[list, list, list]:
     """(stores on tree objects, mutating calls on tree objects, everything else noteworthy); fail closed on
     calls that cannot be classified."""
@@ -222,7 +366,13 @@ def census(fn: ast.FunctionDef, self_name: str) -> tuple[list, list, list]:
                      if isinstance(n, ast.Assign) and len(n.targets) == 1 and isinstance(n.targets[0], ast.Name)
                      and isinstance(n.value, ast.Attribute) and n.value.attr == 'write' and _root_name(n.value) not in tree_names}
     stores, muts, info = [], [], []
+    import builtins as _b
+    raised = {id(n.exc) for n in ast.walk(fn) if isinstance(n, ast.Raise) and isinstance(n.exc, ast.Call)
+              and isinstance(n.exc.func, ast.Name) and isinstance(getattr(_b, n.exc.func.id, None), type)
+              and issubclass(getattr(_b, n.exc.func.id), BaseException)}
     for n in ast.walk(fn):
+        if id(n) in raised:
+            continue        # `raise ValueError(...)`: the construction of a built-in exception
         tgts = []
         if isinstance(n, ast.Assign):
             tgts = n.targets
@@ -667,7 +817,14 @@ def tr_inner(fn: ast.FunctionDef):
         if isinstance(s, ast.Expr) and isinstance(s.value, ast.Call) and isinstance(s.value.func, ast.Attribute) \
                 and s.value.func.attr in MUTATING_METHODS and _root_name(s.value.func.value) in tree_names:
             return 'mutate'
-        return None
+        # a statement that touches state outliving the call (round 5): guard / mark / unmark / state
+        k = state_kind(s, 'keyvalues.py', {self_name})
+        if k == 'state' and isinstance(s, ast.If) and not s.orelse and len(s.body) == 1 and isinstance(s.body[0], ast.Raise) \
+                and state_refs(ast.Expr(value=s.test, lineno=s.lineno), 'keyvalues.py', {self_name}):
+            return 'state'      # `if <test over such state>: raise ...`: one instruction (not the membership guard)
+        if k != 'guard' and isinstance(s, (ast.If, ast.For, ast.While, ast.Try, ast.With, ast.Return)):
+            return None     # a compound statement is not one instruction: left to the shape matchers (fail closed)
+        return k
 
     def seq(stmts, allow_loop):
         """-> (pieces before loop, child indent pieces or None, pieces after loop, the statements in order as instructions)"""
@@ -718,10 +875,13 @@ def tr_inner(fn: ast.FunctionDef):
             and is_self_attr(t.args[0], '_value') and _is_name(t.args[1], 'list')):
         raise _err(top, 'top test is not isinstance(self._value, list)')
     blk = [s for s in top.body if not isinstance(s, (ast.Assert, ast.Pass))]
-    pre_blk = []
+    pre_blk, post_blk = [], []
     while len(blk) > 1 and store_kind(blk[0]) is not None:
         pre_blk.append((store_kind(blk[0]), blk[0].lineno))
         blk = blk[1:]
+    while len(blk) > 1 and store_kind(blk[-1]) is not None:      # after the two branches have joined again
+        post_blk.insert(0, (store_kind(blk[-1]), blk[-1].lineno))
+        blk = blk[:-1]
     if len(blk) != 1 or not isinstance(blk[0], ast.If):
         raise _err(top, 'block branch is not a single if/else on the root test')
     root_test = classify_root_test(blk[0].test, self_name)
@@ -733,8 +893,29 @@ def tr_inner(fn: ast.FunctionDef):
         raise _err(blk[0], 'named-block branch has no child loop')
     lpre, lloop, lpost, lins = seq(top.orelse, False)
     return dict(head=head, child_indent=child, tail=tail, leaf=lpre + lpost, root_indent=rloop,
-                root_test=root_test, prog=dict(root=prefix + pre_blk + rins, block=prefix + pre_blk + bins,
+                root_test=root_test, prog=dict(root=prefix + pre_blk + rins + post_blk, block=prefix + pre_blk + bins + post_blk,
                                                leaf=prefix + lins)), self_name
+
+
+def tree_store_kind(s: ast.stmt, tree_names: set):
+    """'store' for a statement that assigns to / deletes an attribute or item of a tree object, 'mutate' for a call of a
+    mutating method on one, else None."""
+    tgts = []
+    if isinstance(s, ast.Assign):
+        tgts = s.targets
+    elif isinstance(s, ast.AugAssign) or (isinstance(s, ast.AnnAssign) and s.value is not None):
+        tgts = [s.target]
+    elif isinstance(s, ast.Delete):
+        tgts = s.targets
+    flat = []
+    for t in tgts:
+        flat += list(t.elts) if isinstance(t, (ast.Tuple, ast.List)) else [t]
+    if any(isinstance(t, (ast.Attribute, ast.Subscript)) and _root_name(t) in tree_names for t in flat):
+        return 'store'
+    if isinstance(s, ast.Expr) and isinstance(s.value, ast.Call) and isinstance(s.value.func, ast.Attribute) \
+            and s.value.func.attr in MUTATING_METHODS and _root_name(s.value.func.value) in tree_names:
+        return 'mutate'
+    return None
 
 
 def tr_export_struct(fn: ast.FunctionDef) -> dict:
@@ -769,10 +950,17 @@ def tr_export_struct(fn: ast.FunctionDef) -> dict:
             raise _err(at, 'child lines are not CONSTANT + line')
         return [('Lit', c)] if c else []
 
-    def yields(stmts, allow_children):
+    tree_names = {self_name} | {n.target.id for n in ast.walk(fn) if isinstance(n, (ast.For, ast.comprehension))
+                                and isinstance(n.target, ast.Name)}
+
+    def yields(stmts, allow_children, instrs):
         pre, post, prefix = [], [], None
         for st in stmts:
             if isinstance(st, ast.Assert):
+                continue
+            sk = tree_store_kind(st, tree_names)
+            if sk is not None:      # (round 5) a store to / mutating call on a tree object: an instruction of the program
+                instrs.append((sk, st.lineno))
                 continue
             if isinstance(st, ast.For) and allow_children:
                 # for kv in self._value: for line in kv.export(): yield PREFIX + line     (= the generator expression)
@@ -786,6 +974,7 @@ def tr_export_struct(fn: ast.FunctionDef) -> dict:
                         and inner_.body[0].value.value is not None):
                     raise _err(st, 'children are not yielded as `for kv in self._value: for line in kv.export(): yield PREFIX + line`')
                 prefix = child_prefix(inner_.body[0].value.value, inner_.target.id, st)
+                instrs.append(('children', prefix))
                 continue
             if not isinstance(st, ast.Expr):
                 raise _err(st, f'unrecognised statement in export(): {type(st).__name__}')
@@ -794,6 +983,7 @@ def tr_export_struct(fn: ast.FunctionDef) -> dict:
                 continue        # a docstring-like expression statement
             if isinstance(v, ast.Yield) and v.value is not None:
                 (pre if prefix is None else post).append(fs.pieces(v.value))
+                instrs.append(('write', fs.pieces(v.value)))
                 continue
             if isinstance(v, ast.YieldFrom) and allow_children:
                 g = v.value
@@ -807,11 +997,16 @@ def tr_export_struct(fn: ast.FunctionDef) -> dict:
                         and isinstance(g2.target, ast.Name) and is_export_call(g2.iter, g1.target.id)):
                     raise _err(st, 'child generator does not iterate kv.export() for kv in self._value')
                 prefix = child_prefix(g.elt, g2.target.id, st)
+                instrs.append(('children', prefix))
                 continue
             raise _err(st, 'unrecognised expression statement in export()')
         return pre, prefix, post
 
     body = norm_tail(_strip_doc(fn.body))
+    x_prefix = []       # stores / mutating calls in front of the branches belong to every branch
+    while len(body) > 1 and tree_store_kind(body[0], tree_names) is not None:
+        x_prefix.append((tree_store_kind(body[0], tree_names), body[0].lineno))
+        body = norm_tail(body[1:])
     if len(body) != 1 or not isinstance(body[0], ast.If):
         raise _err(fn, 'export() body is not a single if/else')
     top = body[0]
@@ -820,21 +1015,32 @@ def tr_export_struct(fn: ast.FunctionDef) -> dict:
             and is_self_attr(t.args[0], '_value') and _is_name(t.args[1], 'list')):
         raise _err(top, 'export(): top test is not isinstance(self._value, list)')
     blk = [x for x in top.body if not isinstance(x, (ast.Assert, ast.Pass))]
+    x_pre_blk = []
+    while len(blk) > 1 and tree_store_kind(blk[0], tree_names) is not None:
+        x_pre_blk.append((tree_store_kind(blk[0], tree_names), blk[0].lineno))
+        blk = blk[1:]
     if len(blk) != 1 or not isinstance(blk[0], ast.If):
         raise _err(top, 'export(): block branch is not a single if/else on the root test')
     root_test = classify_root_test(blk[0].test, self_name)
     rb = [x for x in blk[0].body if not isinstance(x, ast.Assert)]
+    x_root = []
+    while len(rb) > 1 and tree_store_kind(rb[0], tree_names) is not None:
+        x_root.append((tree_store_kind(rb[0], tree_names), rb[0].lineno))
+        rb = rb[1:]
     ok_root = (len(rb) == 1 and isinstance(rb[0], ast.For) and isinstance(rb[0].target, ast.Name)
                and is_self_attr(rb[0].iter, '_value') and not rb[0].orelse and len(rb[0].body) == 1
                and isinstance(rb[0].body[0], ast.Expr) and isinstance(rb[0].body[0].value, ast.YieldFrom)
                and is_export_call(rb[0].body[0].value.value, rb[0].target.id))
     if not ok_root:
         raise _err(blk[0], 'export(): root branch is not `for kv in self._value: yield from kv.export()`')
-    head, prefix, tail = yields(blk[0].orelse, True)
+    x_root.append(('children', []))
+    x_block, x_leaf = [], []
+    head, prefix, tail = yields(blk[0].orelse, True, x_block)
     if prefix is None:
         raise _err(blk[0], 'export(): named-block branch does not yield its children')
-    leaf, lp, lpost = yields(top.orelse, False)
-    return dict(root_test=root_test, head=head, prefix=prefix, tail=tail, leaf=leaf + lpost)
+    leaf, lp, lpost = yields(top.orelse, False, x_leaf)
+    return dict(root_test=root_test, head=head, prefix=prefix, tail=tail, leaf=leaf + lpost,
+                prog=dict(root=x_prefix + x_pre_blk + x_root, block=x_prefix + x_pre_blk + x_block, leaf=x_prefix + x_leaf))
 
 
 SELF_PREDS: dict = {}      # methods of Keyvalues of the form `def m(self): return <expression>`: inlined where a test calls them
@@ -1342,6 +1548,7 @@ def translate() -> tuple[str, dict]:
     FStr.module_funcs = {n.name: n for n in tree.body if isinstance(n, ast.FunctionDef)}
     SELF_PREDS.clear()
     SELF_PREDS.update(self_preds_of(cls))
+    init_state('keyvalues.py', tree, cls)
     f_ser = _find_method(cls, 'serialise')
     f_in = _find_method(cls, '_serialise')
     f_exp = _find_method(cls, 'export')
@@ -1350,6 +1557,7 @@ def translate() -> tuple[str, dict]:
     inner, s2 = tr_inner(f_in)
     yields, s3 = tr_export(f_exp)
     xs = tr_export_struct(f_exp)
+    xprog = xs.pop('prog')
     psites = tr_parse(f_parse, tree, cls)
     read_flag_known = tr_read_flag(tree)
     stores, muts, info = [], [], []
@@ -1415,6 +1623,7 @@ def translate() -> tuple[str, dict]:
                         '_serialise': ast_digest(f_in), 'serialise': ast_digest(f_ser)}}
     side['read_flag_shape_recognised'] = read_flag_known
     side['serialise_paths'] = serpaths
+    side['export_program'] = {k: [i[0] for i in v] for k, v in xprog.items()}
     side['writer_program'] = {k: [[i[0], ([list(p) for p in i[1]] if isinstance(i[1], list) else i[1])] for i in v] for k, v in wprog.items()}
     return '\n'.join(L), side
 
